@@ -277,6 +277,19 @@ def ceil_div_ok(e, lenc='len', C=None):
         pat = ('ite', ('bin', cmp_, ('bin', 'Rem', '$n', '$c'), ('k', 0)), lo if neg else hi, hi if neg else lo)
         if m(pat, e) is not None:
             return True
+    # usize::from(len % C != 0) + len / C: From<bool> is the cast, the operands of + in either order
+    if e[0] == 'bin' and e[1] == 'Add':
+        ops = [e[2], e[3]]
+        for k_ in (0, 1):
+            o_ = ops[k_]
+            if o_[0] == 'call' and o_[1].rsplit('::', 1)[-1] == 'from' and len(o_[2]) == 1 and norm(o_[2][0])[0] == 'bin' and norm(o_[2][0])[1] in ('Gt', 'Ne'):
+                ops[k_] = norm(o_[2][0])
+            elif o_[0] == 'cast' and norm(o_[1])[0] == 'bin' and norm(o_[1])[1] in ('Gt', 'Ne'):
+                ops[k_] = norm(o_[1])
+        for a_, b_ in ((ops[0], ops[1]), (ops[1], ops[0])):
+            b1 = m(('bin', 'Div', '$n', '$c'), a_)
+            if b1 is not None and b_[0] == 'bin' and b_[1] in ('Gt', 'Ne') and norm(b_[3]) == ('k', 0) and norm(b_[2]) == ('bin', 'Rem', b1['$n'], b1['$c']):
+                return True
     for pat in (('bin', 'Add', ('bin', 'Div', '$n', '$c'), ('cast', ('bin', 'Gt', ('bin', 'Rem', '$n', '$c'), ('k', 0)), 'usize', '_')),
                 ('bin', 'Add', ('bin', 'Div', '$n', '$c'), ('bin', 'Gt', ('bin', 'Rem', '$n', '$c'), ('k', 0))),
                 ('bin', 'Add', ('bin', 'Div', '$n', '$c'), ('bin', 'Ne', ('bin', 'Rem', '$n', '$c'), ('k', 0)))):
